@@ -156,6 +156,8 @@ class Folder:
         self._tabs = {}
 
     def truth(self, v):
+        if isinstance(v, Ptr):
+            return True
         if not isinstance(v, Aff):
             return bool(v)
         lo, hi = v.rng()
@@ -453,6 +455,11 @@ class Folder:
         raise NotConst("operator %s on a quotient-dependent value" % op)
 
     def arith(self, n, op, a, b):
+        if isinstance(a, Ptr) or isinstance(b, Ptr):
+            other = b if isinstance(a, Ptr) else a
+            if op in ("==", "!=") and other == 0:
+                return int(op == "!=")
+            raise NotConst("pointer arithmetic")
         if isinstance(a, Aff) or isinstance(b, Aff):
             return self.arith_aff(op, a, b)
         if op == "+":
@@ -505,7 +512,8 @@ class Folder:
                         else:
                             self.env[v["d"]] = _wrap(self.types, v, val) if v.get("t") is not None else val
                     else:
-                        self.env.setdefault(v["d"], 0)
+                        ty = self.types[v["t"]] if v.get("t") is not None else {}
+                        self.env.setdefault(v["d"], {} if ty.get("rec") is not None else 0)
         elif k == "IfStmt":
             if self.truth(self.ev(s["c"][0])):
                 self.st(s["c"][1])
@@ -636,6 +644,11 @@ class Folder:
             if not isinstance(outer, list) or not (0 <= idx < len(outer)):
                 raise Abort("index %s outside a table" % idx)
             return outer[idx]
+        if b is not None and b.get("k") == "MemberExpr":
+            v = self.load(self.lv(b))
+            if isinstance(v, list):
+                return v
+            raise NotConst("member %s is not a table" % expr_text_safe(b))
         if b is None or b.get("k") != "DeclRefExpr":
             raise NotConst("subscript of a computed array: %s" % expr_text_safe(b))
         if b.get("d") in self.env and isinstance(self.env[b["d"]], list):
